@@ -11,6 +11,8 @@ class G:
         self.n = 0
         self.scopes = [[]]
         self.loopvars = set()
+        self.in_try = False       # inside a try body: defeat calls allowed, try not
+        self.in_handler = False   # inside an undo handler: plain statements only
 
     def vars(self):
         return [v for sc in self.scopes for v in sc]
@@ -101,6 +103,20 @@ class G:
             if k < 0.8: return ['%swriteln(%s);' % (ind, ex)]
             if k < 0.9: return ['%swriteln();' % ind]
             return ['%swrite(\'%s\');' % (ind, self.r.choice(['a', 'Z', '.', '\\n', '\\x00', '\\xff', '\\\\', "\\'"]))]
+        if self.in_try and self.r.random() < 0.18:
+            k = self.r.random()
+            if k < 0.15: return ['%s!is_defeat();' % ind]
+            conds = [self.cmp(self.r.randint(0, 1)) for _ in range(self.r.randint(1, 3))]
+            conds = [c for c in conds if c not in ('true', 'false')] or [self.r.choice(['true', 'false'])]
+            return ['%s!truth_is_defeat(%s);' % (ind, ' or '.join(conds))]
+        if d > 0 and not self.in_try and not self.in_handler and self.r.random() < 0.12:
+            self.in_try = True
+            body = self.block(d - 1, ind=ind + '    ')
+            self.in_try = False
+            self.in_handler = True
+            handler = self.block(min(d - 1, 1), ind=ind + '    ')
+            self.in_handler = False
+            return ['%stry {' % ind] + body + ['%s} undo {' % ind] + handler + ['%s}' % ind]
         if d <= 0: return ['%swrite(\'.\');' % ind]
         if r < 0.72:
             c = self.b(self.r.randint(0, 2))
